@@ -93,34 +93,48 @@ def build(ds, root):
         for i, cc, cid in chunks:
             if i != 4:          # chunk 4 stays missing
                 acc.store_chunk(bytes(se.payload(i)) * 3, KEY, cc)
-        return [(cc, bytes(se.payload(i)) * 3 if i != 4 else None)
+        return [(KEY, cc, bytes(se.payload(i)) * 3 if i != 4 else None)
                 for i, cc, cid in chunks]
     cfg = {"size": ds["size"], "chunk": 1, "triple": ds["triple"],
            "index_enc": ds["enc"], "data_enc": ds["enc"],
            "strategy": "in memory"}
     with open(os.path.join(d, "info"), "w") as f:
-        json.dump(se.make_info(cfg), f)
+        json.dump(se.make_info(cfg, two_scales=True), f)
     w = se.open_writer(d, "in memory")
     chunks = se.chunk_list(ds["size"], 1)
+    size1 = [-(-x // 2) for x in ds["size"]]
+    chunks1 = se.chunk_list(size1, 1)
     for i, cc, cid in chunks:
         if i != 4:
             w.store_chunk(bytes(se.payload(i)), KEY, cc)
+    for i, cc, cid in chunks1:
+        w.store_chunk(bytes(se.payload(i + 50)), "s1", cc)
     with sandbox.quiet():
         w.close()
     if ds["legacy"]:
-        sdir = os.path.join(d, KEY)
         n = 16 * 2 ** ds["triple"][0]
-        for name in os.listdir(sdir):
-            if name.endswith(".shard"):
-                p = os.path.join(sdir, name)
-                data = open(p, "rb").read()
-                with open(p[:-6] + ".index", "wb") as f:
-                    f.write(data[:n])
-                with open(p[:-6] + ".data", "wb") as f:
-                    f.write(data[n:])
-                os.unlink(p)
-    return [(cc, bytes(se.payload(i)) if i != 4 else None)
-            for i, cc, cid in chunks]
+        for key in (KEY, "s1"):
+            sdir = os.path.join(d, key)
+            for name in os.listdir(sdir):
+                if name.endswith(".shard"):
+                    p = os.path.join(sdir, name)
+                    data = open(p, "rb").read()
+                    with open(p[:-6] + ".index", "wb") as f:
+                        f.write(data[:n])
+                    with open(p[:-6] + ".data", "wb") as f:
+                        f.write(data[n:])
+                    os.unlink(p)
+    out = [(KEY, cc, bytes(se.payload(i)) if i != 4 else None)
+           for i, cc, cid in chunks]
+    out1 = [("s1", cc, bytes(se.payload(i + 50))) for i, cc, cid in chunks1]
+    # interleave the two scales: the reads alternate between them
+    mixed = []
+    for k in range(max(len(out), len(out1))):
+        if k < len(out):
+            mixed.append(out[k])
+        if k < len(out1):
+            mixed.append(out1[k])
+    return mixed
 
 
 def local_reference(root, chunks):
@@ -129,11 +143,11 @@ def local_reference(root, chunks):
     acc = accessor.get_accessor_for_url(os.path.join(root, "ds"))
     sandbox.drop_captured_exit_handlers()
     ref = {}
-    for cc, _ in chunks:
+    for key, cc, _ in chunks:
         try:
-            ref[cc] = ("ok", bytes(acc.fetch_chunk(KEY, cc)))
+            ref[(key, cc)] = ("ok", bytes(acc.fetch_chunk(key, cc)))
         except Exception as exc:
-            ref[cc] = ("error", type(exc).__name__)
+            ref[(key, cc)] = ("error", type(exc).__name__)
     try:
         ref["info"] = ("ok", bytes(acc.fetch_file("info")))
     except Exception as exc:
@@ -156,13 +170,13 @@ def run_history(url, chunks, srv, deviations):
         out.append(("open", ("error", type(exc).__name__, str(exc)[:100])))
         return out, list(srv.log), marks
     marks.append(len(srv.log))
-    for cc, _ in chunks:
+    for key, cc, _ in chunks:
         try:
-            out.append((("chunk", cc), ("ok", bytes(acc.fetch_chunk(KEY,
-                                                                    cc)))))
+            out.append((("chunk", key, cc),
+                        ("ok", bytes(acc.fetch_chunk(key, cc)))))
         except Exception as exc:
-            out.append((("chunk", cc), ("error", type(exc).__name__,
-                                        str(exc)[:100])))
+            out.append((("chunk", key, cc), ("error", type(exc).__name__,
+                                             str(exc)[:100])))
         marks.append(len(srv.log))
     try:
         out.append(("info", ("ok", bytes(acc.fetch_file("info")))))
@@ -277,7 +291,7 @@ def explore_dataset(col, ds, tier):
                     c2 = dict(case, op=list(op) if isinstance(op, tuple)
                               else op)
                     if isinstance(op, tuple) and op[0] == "chunk":
-                        w = ref[op[1]]
+                        w = ref[(op[1], op[2])]
                     elif op == "info":
                         w = ref["info"]
                     else:
@@ -314,6 +328,19 @@ def explore_dataset(col, ds, tier):
             if url == URLS[0]:
                 ref_out, ref_log, ref_marks = out, log, marks
         if ref_out is None or ref_out[0][1][0] != "ok":
+            return
+        # two fresh accessors on the same data must issue the same requests:
+        # anything else is state leaking between accessor instances (which
+        # would also make the deviation runs below meaningless)
+        out2, log2, _ = run_history(URLS[0], chunks, srv, {})
+        if log2 != ref_log or out2 != ref_out:
+            col.ev(1, 1, "equiv-bad")
+            col.violation("C14/equiv/fresh-accessor-behaves-differently-the-"
+                          "second-time", dict(base_case, url=URLS[0],
+                                              deviations={}),
+                          "same requests and results from a second fresh "
+                          "accessor", "requests %r... vs %r..." % (
+                              log2[:4], ref_log[:4]))
             return
         # ---- deviations (first URL spelling)
         url = URLS[0]
